@@ -437,7 +437,7 @@ def _prune_run(tier, seed):
     n = 16 if tier == "quick" else 400
     res.rule = "composited colour at grid points of the document before vs after SVG.remove_unpainted_shapes() and SVG.remove_empty_subpaths(), each called directly on the parsed source"
     res.bound = f"{n} generated cascade / structural documents (seed {seed}) + corpus + pinned documents"
-    docs = [(f"pinned:{k}", corpus.PINNED[k]) for k in ("group_style_hides_but_child_paints", "evenodd_repeated_subpath", "paint_set_two_levels_up")]
+    docs = [(f"pinned:{k}", corpus.PINNED[k]) for k in ("group_style_hides_but_child_paints", "evenodd_repeated_subpath", "paint_set_two_levels_up", "initial_fill_under_a_styled_group")]
     docs += [(f"corpus:{k}", v) for k, v in corpus.DOCS.items()]
     for fam in ("cascade", "structural"):
         docs += list(gen.documents(fam, seed, n // 2))
@@ -458,6 +458,20 @@ def _prune_run(tier, seed):
             if bad:
                 pnt, want, got = bad[0]
                 key = f"prune.render:{name}:{op}" if name.startswith(("pinned:", "corpus:")) else f"prune.render:{op}:{name}"
+                # one root cause has a signature that can be tested exactly (F45): a shape that states a paint property at its INITIAL value
+                # (fill="black", stroke-width="1") below an ancestor that sets the property in a style attribute loses the attribute when the
+                # cached shape is written back, because the inherited context is computed from presentation attributes only.  It is this
+                # cause iff the same operation on the same document with the style attributes resolved first leaves the picture alone.
+                try:
+                    resolved = SVG.fromstring(doc).apply_style_attributes()
+                    before = resolved.tostring()
+                    after = getattr(SVG.fromstring(before), op)().tostring()
+                    if "style=" in doc and not refrender.compare(before, after, stroke=True)[1]:
+                        key = "prune.render:class:initial-value-lost-under-an-ancestor-style"
+                except Exception:  # noqa
+                    pass
+                if any(f.key == key for f in res.findings):
+                    continue
                 res.findings.append(Finding(key=key, text=f"{name}: {op}() changes the picture: {len(bad)} of {cnt} sample points differ, e.g. at ({pnt[0]:.2f},{pnt[1]:.2f}) {want} became {got}",
                                             replay=dict(doc=doc, name=name, op=op), confirmed=True))
     res.distinct_nontrivial = len(distinct)
